@@ -1,26 +1,46 @@
-"""Property -> rules table. Floors are the numbers of definite verdicts measured on the pinned tree
-(after hand-checking every instance); a run that decides fewer fails closed."""
+"""Property -> rules table. Floors are derived from the numbers of definite verdicts measured on the
+current tree after every instance had been triaged by hand; small anchored rules use the exact count, the
+two program-wide analyses (FRAME, TRAVERSE) 90 % of it so that a harmless local refactoring does not trip
+them. A run that decides fewer instances than the floor fails closed (`coverage-lost`)."""
 from .registry import prop, tag
 
-NEC = ("Decides necessary structural conditions of the property on the type-checked program (typed HIR of "
-       "every function of spl_frontend and lsp4spl, callees resolved through type information); it does not "
-       "decide the behaviour as a whole. ")
+NEC = ("Static analysis of the type-checked program (typed HIR of every function of spl_frontend and lsp4spl, "
+       "callees resolved through type information, exported by the splint rustc driver from the current tree). "
+       "It decides necessary structural conditions of the property, not the behaviour as a whole. ")
 
-prop("C01", NEC + "Clauses: symbol table and semantic analysis are rebuilt from the final AST after the last "
-     "lexer/parser step (REBUILD); reused nodes are stripped of exactly the message classes that table::* "
-     "produces (STRIP-SET); parser context saved in locals is restored on every exit (SAVE-RESTORE); equality "
-     "used for token reuse compares every field (EQ-COMPLETE).",
-     [{"rule": "REBUILD", "floor": 14}, {"rule": "STRIP-SET", "floor": 4}, {"rule": "SAVE-RESTORE", "floor": 4},
-      {"rule": "EQ-COMPLETE", "floor": 43}])
+FRONT_FRAME = ("error_container.rs", "build.rs", "semantic.rs", "lib.rs", "error.rs", "ast.rs", "table.rs", "parser.rs")
 
-prop("C02", NEC + "Clauses: token-range to text-range conversions unwrap first()/last() only in the arm "
-     "complementary to `range.is_empty()`; the process is terminated only at the three sanctioned places.",
-     [{"rule": "EMPTY-RANGE-GUARD", "floor": 2}, {"rule": "WHO-MAY", "filter": tag("exit"), "floor": 5}])
 
-prop("C03", NEC + "Clauses: each of the 27 build/semantic message kinds has an emitting site under table::* and "
-     "its own text (VARIANTS); type equality used by the checker compares every field incl. the array creator "
-     "(EQ-COMPLETE: SPL name equivalence).",
-     [{"rule": "VARIANTS", "floor": 54}, {"rule": "EQ-COMPLETE", "floor": 43}])
+def files(*names):
+    s = set(names)
+    return lambda i: bool(s & set(i.tags)) or "anchor" in i.tags
+
+
+prop("C01", NEC + "Clauses: positions handed to TokenChange queries are absolute old positions (TOKCHANGE-ARGS); symbol "
+     "table and semantic analysis are rebuilt from the final AST after the last lexer/parser step (REBUILD); reused "
+     "nodes are stripped of exactly the message classes table::* produces, on the clone that is handed out "
+     "(STRIP-SET) and traverse_mut reaches every AstInfo (TRAVERSE); parser context saved in locals is restored "
+     "on every exit (SAVE-RESTORE); equality used for token reuse compares every field (EQ-COMPLETE); relocated "
+     "tokens relocate their errors (TOKEN-ERRORS); the look-ahead table covers every extendable lexeme (T2).",
+     [{"rule": "TOKCHANGE-ARGS", "floor": 4}, {"rule": "REBUILD", "floor": 14}, {"rule": "STRIP-SET", "floor": 4},
+      {"rule": "SAVE-RESTORE", "floor": 4}, {"rule": "EQ-COMPLETE", "floor": 43},
+      {"rule": "TRAVERSE", "filter": tag("traverse"), "floor": 106},
+      {"rule": "TOKEN-ERRORS", "floor": 2}, {"rule": "TABLES", "filter": tag("T2"), "floor": 17}])
+
+prop("C02", NEC + "Clauses: token-range to text-range conversions unwrap first()/last() only in the arm complementary "
+     "to `range.is_empty()`; results of request-driven table lookups are never unwrapped and no handler panics on the "
+     "kind of a looked-up entry (LOOKUP-NOPANIC); locations are produced only for user declarations (ENTRY-GUARD: "
+     "predefined entries have the empty range); the process is terminated only at the three sanctioned places.",
+     [{"rule": "EMPTY-RANGE-GUARD", "floor": 2}, {"rule": "LOOKUP-NOPANIC", "floor": 14},
+      {"rule": "ENTRY-GUARD", "floor": 6}, {"rule": "WHO-MAY", "filter": tag("exit"), "floor": 5}])
+
+prop("C03", NEC + "Clauses: each of the 27 build/semantic message kinds has an emitting site under table::* and its own "
+     "text (VARIANTS); every error is attached in the reference frame of the node that owns it and is shifted exactly "
+     "once per Reference crossed on the way up (FRAME S6/S3/S4/S-shift in error_container.rs, build.rs, semantic.rs, "
+     "lib.rs); every ErrorContainer impl descends into every child that can hold an AstInfo (TRAVERSE); type equality "
+     "used by the checker compares every field incl. the array creator (EQ-COMPLETE: SPL name equivalence).",
+     [{"rule": "VARIANTS", "floor": 54}, {"rule": "FRAME", "filter": files(*FRONT_FRAME), "floor": 212},
+      {"rule": "TRAVERSE", "filter": tag("errors", "analyze", "build"), "floor": 73}, {"rule": "EQ-COMPLETE", "floor": 43}])
 
 prop("C04", NEC + "Clauses: shape of the precedence-climbing parser (levels, loops, operand parsers, else binding) "
      "and agreement of parser levels with the operator classification used by the type checker (T5); raw token "
@@ -38,19 +58,65 @@ prop("C06", NEC + "Clauses: alt(..) order vs. prefix relation of static lexemes 
      [{"rule": "TABLES", "filter": tag("T1", "T3"), "floor": 37}, {"rule": "EOF-ONCE", "floor": 3}])
 
 prop("C07", NEC + "Clauses: a token relocated to a new range relocates its lexical errors too (TOKEN-ERRORS); the "
-     "look-ahead table covers every lexeme that a following character can extend (T2).",
-     [{"rule": "TOKEN-ERRORS", "floor": 2}, {"rule": "TABLES", "filter": tag("T2"), "floor": 17}])
+     "look-ahead table covers every lexeme that a following character can extend (T2); byte, char and UTF-16 lengths "
+     "are not mixed in the shift arithmetic (LEN-UNITS).",
+     [{"rule": "TOKEN-ERRORS", "floor": 2}, {"rule": "TABLES", "filter": tag("T2"), "floor": 17},
+      {"rule": "LEN-UNITS", "filter": tag("arith"), "floor": 1}])
 
 prop("C08", NEC + "Clauses: no content change is discarded, batched changes are converted against the advanced "
-     "temporary text and applied to it, LSP columns advance by UTF-16 code units.",
-     [{"rule": "TEXT-SYNC", "floor": 6}])
+     "temporary text and applied to it, LSP columns advance by UTF-16 code units; lengths of different units are not mixed.",
+     [{"rule": "TEXT-SYNC", "floor": 6}, {"rule": "LEN-UNITS", "floor": 2}])
 
-prop("C09", NEC + "Clause: operators are re-printed as the lexeme they were lexed from (T4).",
-     [{"rule": "TABLES", "filter": tag("T4"), "floor": 20}])
+prop("C09", NEC + "Clauses: operators are re-printed as the lexeme they were lexed from (T4); every Format impl prints "
+     "every child that holds an identifier, literal or operator and every Error variant (TRAVERSE); every token slice "
+     "handed down is re-based exactly when a Reference is crossed (FRAME in formatting.rs); the edit covers the whole "
+     "document (FMT-PURE).",
+     [{"rule": "TABLES", "filter": tag("T4"), "floor": 20}, {"rule": "TRAVERSE", "filter": tag("format"), "floor": 43},
+      {"rule": "FRAME", "filter": files("formatting.rs"), "floor": 63}, {"rule": "FMT-PURE", "floor": 4}])
 
-prop("C15", NEC + "Clause: the semantic token legend published by main.rs has the order of the enum discriminants "
-     "used as indices (T6).",
-     [{"rule": "TABLES-SEMTOK", "floor": 11}])
+prop("C10", NEC + "Clause: a composite node whose parser skips comments in front of several own tokens must re-attach all "
+     "comments of its slice (COMMENT-PAIRING). Six composite Format impls violate it on the pinned tree (known findings).",
+     [{"rule": "COMMENT-PAIRING", "floor": 11}])
+
+prop("C11", NEC + "Clauses: the printer does not read byte positions (output is a function of tree and token kinds), the "
+     "indentation unit follows insertSpaces/tabSize, null is returned exactly on equality.",
+     [{"rule": "FMT-PURE", "floor": 4}])
+
+prop("C12", NEC + "Clauses: an entry's name range is resolved against the token slice cut with that same entry's range "
+     "(FRAME S7 in goto.rs / features.rs); inside a procedure the identifier is resolved local-then-global through a "
+     "LookupTable built from that procedure (SCOPE-ORDER); locations only for user declarations (ENTRY-GUARD) and "
+     "is_default() never holds for locals (ENTRY-KIND); lookups are never unwrapped (LOOKUP-NOPANIC).",
+     [{"rule": "FRAME", "filter": files("goto.rs", "features.rs", "table.rs"), "floor": 16},
+      {"rule": "SCOPE-ORDER", "floor": 9}, {"rule": "ENTRY-GUARD", "floor": 6}, {"rule": "ENTRY-KIND", "floor": 4},
+      {"rule": "LOOKUP-NOPANIC", "floor": 14}])
+
+prop("C13", NEC + "Clauses: the finder walkers descend into every statement/expression/type shape that can contain what "
+     "they collect (TRAVERSE); every identifier found is shifted once per Reference crossed (FRAME in references.rs); "
+     "find and rename use the same finder with the same arguments (SAME-FINDER); binding resolution is local-then-global "
+     "(SCOPE-ORDER).",
+     [{"rule": "TRAVERSE", "filter": tag("vars", "calls", "types"), "floor": 51},
+      {"rule": "FRAME", "filter": files("references.rs"), "floor": 56}, {"rule": "SAME-FINDER", "floor": 3},
+      {"rule": "SCOPE-ORDER", "floor": 9}])
+
+prop("C14", NEC + "Clauses: the call statement is located with node, origin and token slice in one frame on every step of "
+     "the descent (FRAME in signature_help.rs) through every statement shape that can contain a call (TRAVERSE); hover "
+     "resolves local-then-global (SCOPE-ORDER).",
+     [{"rule": "FRAME", "filter": files("signature_help.rs"), "floor": 8},
+      {"rule": "TRAVERSE", "filter": tag("calls"), "floor": 18}, {"rule": "SCOPE-ORDER", "floor": 9}])
+
+prop("C15", NEC + "Clauses: legend order = enum discriminants (T6); token positions of different units/frames are not "
+     "compared and declaration slices are cut in the right frame (FRAME in semantic_tokens.rs); token lengths are UTF-16 "
+     "(LEN-UNITS); the delta base advances exactly when a token is emitted (SEMTOK-PAIRING).",
+     [{"rule": "TABLES-SEMTOK", "floor": 11}, {"rule": "FRAME", "filter": files("semantic_tokens.rs"), "floor": 3},
+      {"rule": "LEN-UNITS", "filter": tag("lsp"), "floor": 1}, {"rule": "SEMTOK-PAIRING", "floor": 6}])
+
+prop("C16", NEC + "Clauses: every token slice / node pair that drives the position classification is in one frame (FRAME "
+     "in completion.rs); variables are proposed from the LookupTable of the procedure that contains the cursor (SCOPE-ORDER).",
+     [{"rule": "FRAME", "filter": files("completion.rs"), "floor": 18}, {"rule": "SCOPE-ORDER", "floor": 9}])
+
+prop("C17", NEC + "Clause: the procedure's token range is made absolute with the offset of the Reference it was reached "
+     "through before the token vector is sliced (FRAME in fold.rs).",
+     [{"rule": "FRAME", "filter": files("fold.rs"), "floor": 2}])
 
 prop("C18", NEC + "Clauses: every path through every Request arm of the three phase loops splits the request, "
      "turns the PreparedResponse into exactly one Response and sends it; phase x situation -> error code table; "
